@@ -187,7 +187,7 @@ PROPS["C02"] = dict(
 
 PROPS["C07"] = dict(
     module="Panacea.Properties.C07",
-    obligations=["Panacea.C07.burn_endblock_spec", "Panacea.C07.burn_endblock_send_never_fails"],
+    obligations=["Panacea.C07.burn_after_coin_moving_endblockers", "Panacea.C07.only_custom_modules_after_burn", "Panacea.C07.burn_endblock_spec", "Panacea.C07.burn_endblock_send_never_fails"],
     streams=[dict(name="burn", quick=40, thorough=800, thorough_seeds=3)],
     trusted=["hand-written Lean model Panacea/Model/Bank.lean of the parts of cosmos-sdk v0.47.12 x/bank the burn module uses (SpendableCoins, SendCoins incl. its coin-by-coin debit without rollback, BurnCoins, vesting locks) and of x/burn's end-blocker, tied by the burn stream: a real app, multi-denomination sends and vesting-account creation at the burn address, the real EndBlock/Commit of every block, balances/spendable/supply deltas compared, crisis.AssertInvariants after every history",
              "staking/distribution/gov invariants are not modelled: asserted on the implementation only (mon.c07.inv)"],
